@@ -1,6 +1,8 @@
 """Seeded one-instance-broken variants (see bin/selftest). `expect` is a regex on the rule id; None = must stay silent."""
 EL = 'src/prayer_times/ext_lat.rs'
 HR = 'src/prayer_times/hours.rs'
+DT = 'src/prayer_times/date.rs'
+MOD = 'src/prayer_times/mod.rs'
 VARIANTS = [
     # ---------------------------------------------------------------- C08
     dict(id='c08-near-lat-drop-is-err', property='C08', expect=r'R8\.[23]', edits=[(EL,
@@ -170,4 +172,29 @@ VARIANTS = [
                 x.extreme = extreme;""", """                x.value -= params.intervals[&Fajr] / MIN_SEC_PER_HR_MIN;
                 x.extreme = true;""")]),
     dict(id='c05-no-imsaak', property='C05', expect=r'R5\.1', edits=[('src/prayer_times/mod.rs', '    times.insert(Imsaak, imsaak);', '    let _ = imsaak;')]),
+    # ---------------------------------------------------------------- C14
+    dict(id='c14-cast-unguarded', property='C14', expect=r'R14\.1', edits=[(DT, '(duration.num_days() + 1).max(0) as usize', '(duration.num_days() + 1) as usize')]),
+    dict(id='c14-no-plus-one', property='C14', expect=r'R14\.1', edits=[(DT, '(duration.num_days() + 1).max(0) as usize', '(duration.num_days()).max(0) as usize')]),
+    dict(id='c14-take-n-minus-1', property='C14', expect=r'R14\.2', edits=[(MOD, '        .take(date_range.num_days())', '        .take(date_range.num_days().saturating_sub(1))')]),
+    dict(id='c14-step-b-plus-1', property='C14', expect=r'R14\.3', edits=[(DT,
+         'start_date_iter = start_date_iter.add(Duration::days(block_size));', 'start_date_iter = start_date_iter.add(Duration::days(block_size + 1));')]),
+    dict(id='c14-floor-for-ceil', property='C14', expect=r'R14\.3', edits=[(DT, '(days as f64 / count as f64).ceil() as i64', '(days as f64 / count as f64).floor() as i64')]),
+    dict(id='c14-guard-lt', property='C14', expect=r'R14\.3', edits=[(DT, 'while start_date_iter <= *self.end_date() {', 'while start_date_iter < *self.end_date() {')]),
+    dict(id='c14-insert-wrong-key', property='C14', expect=r'R14\.2', edits=[(MOD, '        times.insert(date, prayer_time);', '        times.insert(*date_range.start_date(), prayer_time);')]),
+    # ---------------------------------------------------------------- C15
+    dict(id='c15-delete-drop-tx', property='C15', expect=r'R15\.1', edits=[(MOD, '            drop(tx);\n', '            let _keep = &tx;\n')]),
+    dict(id='c15-worker-whole-range', property='C15', expect=r'R15\.[23]', edits=[(MOD,
+         'let partial_times = prayer_times_dt_rng(params, location, &date_range);', 'let partial_times = prayer_times_dt_rng(params, location, date_range_all);'),
+         (MOD, '            let date_ranges = date_range.partition(avail_pll);', '            let date_range_all = date_range;\n            let date_ranges = date_range.partition(avail_pll);')]),
+    dict(id='c15-skip-first-partition', property='C15', expect=r'R15\.3', edits=[(MOD, '            for date_range in date_ranges {', '            for date_range in date_ranges.into_iter().skip(1) {')]),
+    dict(id='c15-collector-breaks', property='C15', expect=r'R15\.[14]', edits=[(MOD,
+         """                while let Ok(mut partial_times) = rx.recv() {
+                    times.append(&mut partial_times);
+                }""", """                while let Ok(mut partial_times) = rx.recv() {
+                    times.append(&mut partial_times);
+                    if times.len() > 4000 {
+                        break;
+                    }
+                }""")]),
+    dict(id='c15-partition-other-count', property='C15', expect=r'R15\.3', edits=[(MOD, 'let date_ranges = date_range.partition(avail_pll);', 'let date_ranges = date_range.partition(avail_pll - 1);')]),
 ]
